@@ -8,7 +8,10 @@
     X(cbroadcast) X(csigloop) X(bwait) X(bwait_rej) X(breinit) X(evset)       \
     X(evwait) X(evwait_rej) X(evtest) X(evreset) X(fuset) X(fuwait)           \
     X(fuwait_rej) X(futest) X(fureset) X(rdlock) X(wrlock) X(rwunlock)        \
-    X(rdlock_rej) X(wrlock_rej)
+    X(rdlock_rej) X(wrlock_rej)                                               \
+    X(createto) X(createon) X(revive) X(reviveto) X(joinmany) X(freemany)     \
+    X(payload) X(chkpayload) X(exit) X(cancel) X(xsjoin) X(xsfree)            \
+    X(poolcheck) X(addsched)
 
 enum {
 #define X(n) OP_##n,
@@ -29,6 +32,10 @@ struct uarg {
 static struct uarg g_uarg[MAXU][16];
 
 static void exec_op(actor *a, op_t *o);
+static void check_start_stream(actor *a);
+static void notify_done(void);
+static void migr_callback(ABT_thread thread, void *cb_arg);
+static void op_addsched(actor *a, int p, int s);
 
 static int is_ult_actor(actor *a)
 {
@@ -86,16 +93,19 @@ static void unit_body(void *arg, int fnid)
              a->starts + 1);
     a->running = 1;
     a->starts++;
+    stat_add("unit_starts", 1);
     hist(a, "start", ua->inc, fnid, 0);
     void *sarg = NULL;
     int rc = ABT_self_get_arg(&sarg);
     if (rc != ABT_SUCCESS || sarg != arg)
         viol("ABT_self_get_arg mismatch in u%d", a->id);
+    check_start_stream(a);
     run_ops(a);
     hist(a, "end", ua->inc, 0, 0);
     a->end_step = now_step();
     a->running = 0;
     a->ends++;
+    notify_done();
 }
 static void unit_fn0(void *arg)
 {
@@ -117,47 +127,6 @@ static void *next_uarg(actor *u)
     ua->fn = u->alt_fn;
     u->pc_heap = 0;
     return ua;
-}
-
-static void op_create(actor *a, int ui)
-{
-    (void)a;
-    actor *u = &G.unit[ui];
-    if (u->created)
-        generr("unit %d created twice", ui);
-    u->created = 1;
-    void *arg = next_uarg(u);
-    void (*fn)(void *) = u->alt_fn ? unit_fn1 : unit_fn0;
-    ABT_pool pool = G.pool[u->pool].h;
-    int rc;
-    if (u->utype == U_ULT) {
-        ABT_thread_attr attr = ABT_THREAD_ATTR_NULL;
-        if (u->stackkind || !u->migratable) {
-            rc = ABT_thread_attr_create(&attr);
-            CHECK_RC(rc, "ABT_thread_attr_create");
-            if (u->stackkind == 1) {
-                rc = ABT_thread_attr_set_stacksize(attr, (size_t)u->stacksize);
-                CHECK_RC(rc, "ABT_thread_attr_set_stacksize");
-            } else if (u->stackkind == 2) {
-                u->ustack = malloc((size_t)u->stacksize + (size_t)u->stackoff + 64);
-                rc = ABT_thread_attr_set_stack(attr, (char *)u->ustack + u->stackoff,
-                                               (size_t)u->stacksize);
-                CHECK_RC(rc, "ABT_thread_attr_set_stack");
-            }
-            if (!u->migratable) {
-                rc = ABT_thread_attr_set_migratable(attr, ABT_FALSE);
-                CHECK_RC(rc, "ABT_thread_attr_set_migratable");
-            }
-        }
-        rc = ABT_thread_create(pool, fn, arg, attr, u->named ? &u->h : NULL);
-        CHECK_RC(rc, "ABT_thread_create");
-        if (attr != ABT_THREAD_ATTR_NULL)
-            ABT_thread_attr_free(&attr);
-    } else {
-        rc = ABT_task_create(pool, fn, arg, u->named ? (ABT_task *)&u->h : NULL);
-        CHECK_RC(rc, "ABT_task_create");
-    }
-    hist(a, "created", ui, 0, 0);
 }
 
 static void check_joined(actor *a, actor *u, const char *what)
@@ -341,6 +310,7 @@ static void op_unlock(actor *a, int m, int variant)
 }
 
 #include "ops_sync.h"
+#include "ops_unit.h"
 
 /* ------------------------------------------------------------------ */
 static void exec_op(actor *a, op_t *o)
@@ -432,7 +402,49 @@ static void exec_op(actor *a, op_t *o)
         case OP_nop:
             break;
         case OP_create:
-            op_create(a, (int)o->a[0]);
+            op_create_ex(a, a0, 0, 0);
+            break;
+        case OP_createto:
+            op_create_ex(a, a0, 1, 0);
+            break;
+        case OP_createon:
+            op_create_ex(a, a0, 2, a1);
+            break;
+        case OP_revive:
+            op_revive(a, a0, a1, 0);
+            break;
+        case OP_reviveto:
+            op_revive(a, a0, a1, 1);
+            break;
+        case OP_joinmany:
+            op_join_many(a, o, 0);
+            break;
+        case OP_freemany:
+            op_join_many(a, o, 1);
+            break;
+        case OP_payload:
+            op_payload(a, o->a[0]);
+            break;
+        case OP_chkpayload:
+            op_chkpayload(a, a0, o->a[1]);
+            break;
+        case OP_exit:
+            op_exit(a);
+            break;
+        case OP_cancel:
+            op_cancel(a, a0);
+            break;
+        case OP_xsjoin:
+            op_xsjoin(a, a0, 0);
+            break;
+        case OP_xsfree:
+            op_xsjoin(a, a0, 1);
+            break;
+        case OP_poolcheck:
+            op_poolcheck(a);
+            break;
+        case OP_addsched:
+            op_addsched(a, a0, a1);
             break;
         case OP_join:
             op_join(a, (int)o->a[0]);
@@ -501,9 +513,10 @@ static void *ext_main(void *arg)
 {
     actor *a = (actor *)arg;
     run_ops(a);
-    a->ends = 1;
+    ASTORE(a->ends, 1);
     if (ds_active())
         ds_touch();
+    notify_done();
     return NULL;
 }
 
@@ -513,6 +526,11 @@ static void setup_pools(void)
     for (int i = 0; i < G.nxs; i++)
         for (int k = 0; k < G.xs[i].npools; k++)
             G.pool[G.xs[i].pools[k]].attached++;
+    for (int i = 0; i < G.nsub; i++)
+        for (int k = 0; k < G.sub[i].npools; k++) {
+            G.pool[G.sub[i].pools[k]].attached++;
+            G.pool[G.sub[i].pools[k]].sub = i;
+        }
     for (int i = 0; i < G.npool; i++) {
         vpool *p = &G.pool[i];
         if (G.nxs > 0 && G.xs[0].sched == 0 && G.xs[0].npools == 1 && G.xs[0].pools[0] == i) {
@@ -551,7 +569,32 @@ static void create_xs(int i)
     make_sched(x);
     int rc = ABT_xstream_create(x->sh, &x->h);
     CHECK_RC(rc, "ABT_xstream_create");
+    rc = ABT_xstream_get_rank(x->h, &x->rank);
+    CHECK_RC(rc, "ABT_xstream_get_rank");
     x->created = 1;
+}
+
+static void op_addsched(actor *a, int p, int s)
+{
+    (void)a;
+    vxs *x = &G.sub[s];
+    if (x->created)
+        generr("stacked scheduler %d added twice", s);
+    make_sched(x);
+    x->created = 1;
+    int rc = ABT_pool_add_sched(G.pool[p].h, x->sh);
+    CHECK_RC(rc, "ABT_pool_add_sched");
+    stat_add("stacked_scheds", 1);
+}
+
+static void migr_callback(ABT_thread thread, void *cb_arg)
+{
+    actor *u = (actor *)cb_arg;
+    if (u < &G.unit[0] || u >= &G.unit[MAXU])
+        viol("migration callback got a foreign argument");
+    if (u->named && thread != u->h)
+        viol("migration callback of u%d got another thread handle", u->id);
+    AINC(u->cb_count);
 }
 
 static void final_unit_checks(const char *when)
@@ -583,6 +626,7 @@ static void run_program(void)
     rc = ABT_xstream_self(&G.xs[0].h);
     CHECK_RC(rc, "ABT_xstream_self");
     G.xs[0].created = 1;
+    G.xs[0].rank = 0;
     setup_pools();
     if (G.xs[0].sched != 0) {
         make_sched(&G.xs[0]);
@@ -656,40 +700,28 @@ static void run_program(void)
         if (pthread_create(&G.ext[i].pth, NULL, ext_main, &G.ext[i]) != 0)
             generr("pthread_create failed");
     run_ops(&G.main_a);
-    /* never block the primary stream in pthread_join while external threads
-     * may depend on units of the primary stream */
-    for (int i = 0; i < G.next; i++)
-        while (!G.ext[i].ends) {
-            rc = ABT_thread_yield();
-            CHECK_RC(rc, "ABT_thread_yield");
-        }
+    if (G.drain) {
+        /* block (not poll) until every unit and external thread has finished:
+         * synchronisation objects are freed below, and the primary stream must
+         * keep scheduling meanwhile */
+        main_wait_all_done();
+    } else {
+        for (int i = 0; i < G.next; i++)
+            while (!ALOAD(G.ext[i].ends)) {
+                rc = ABT_thread_yield();
+                CHECK_RC(rc, "ABT_thread_yield");
+            }
+    }
     for (int i = 0; i < G.next; i++)
         pthread_join(G.ext[i].pth, NULL);
     /* tear-down */
-    if (G.drain) {
-        /* synchronisation objects are freed below: wait (yielding) until every
-         * unit that may still use them has finished */
-        for (;;) {
-            int busy = 0;
-            for (int i = 0; i < G.nunit; i++) {
-                actor *u = &G.unit[i];
-                if (u->created && !u->cancelled && (u->ends != u->incarnation || u->running))
-                    busy = 1;
-            }
-            if (!busy)
-                break;
-            rc = ABT_thread_yield();
-            CHECK_RC(rc, "ABT_thread_yield");
-        }
-    }
     for (int i = 1; i < G.nxs; i++) {
         vxs *x = &G.xs[i];
-        if (x->created && !x->freed && !x->joined) {
-            rc = ABT_xstream_join(x->h);
-            CHECK_RC(rc, "ABT_xstream_join");
-            x->joined = 1;
-        }
+        if (x->created && !x->freed && !x->joined)
+            op_xsjoin(&G.main_a, i, 0);
     }
+    if (G.drain)
+        check_pool_counts("after all units finished", 1);
     for (int i = 0; i < G.nunit; i++) {
         actor *u = &G.unit[i];
         if (u->created && u->named && !u->freed)
@@ -703,6 +735,8 @@ static void run_program(void)
             x->freed = 1;
         }
     }
+    /* objects that units left for ABT_finalize may still use are not freed */
+    if (G.drain || all_done()) {
     for (int i = 0; i < G.nmutex; i++) {
         if (m_holder[i])
             generr("mutex %d still held at the end", i);
@@ -740,8 +774,10 @@ static void run_program(void)
         rc = ABT_rwlock_free(&G.rwlock[i]);
         CHECK_RC(rc, "ABT_rwlock_free");
     }
+    }
     for (int i = 0; i < G.npool; i++)
-        if (!G.pool[i].attached && G.pool[i].h != ABT_POOL_NULL) {
+        if (G.pool[i].h != ABT_POOL_NULL &&
+            (!G.pool[i].attached || (G.pool[i].sub >= 0 && !G.sub[G.pool[i].sub].created))) {
             rc = ABT_pool_free(&G.pool[i].h);
             CHECK_RC(rc, "ABT_pool_free");
         }
